@@ -336,6 +336,11 @@ def newIstioCA (b : Bundle) (defaultTTL maxTTL now : Int) : Option CA :=
   | none => none
   | some d => some { defaultTTL := d, maxTTL := maxTTL, bundle := b }
 
+/-- `NewPluggedCertIstioCAOptions` followed by `NewIstioCA` (how istiod builds a plugged-in CA): the production
+    constructor refuses a signing certificate that is not a CA certificate (BasicConstraints CA:FALSE). -/
+def newPluggedIstioCA (signerIsCA : Bool) (b : Bundle) (defaultTTL maxTTL now : Int) : Option CA :=
+  if !signerIsCA then none else newIstioCA b defaultTTL maxTTL now
+
 /-- The key cert bundle is replaced under the live CA (`KeyCertBundle.VerifyAndSetAll`: root-cert
     rotator, cacerts reload).  The effective default TTL, computed by `minTTL` at construction, is NOT
     recomputed. -/
@@ -511,6 +516,12 @@ def Slot.updated (s : Slot) (pods : List Pod) (hidden : List String := []) : Slo
 /-- the new component synced and the controller noticed (`pendingSwap.HasSynced`): swap finalized -/
 def Slot.synced (s : Slot) : Slot :=
   { cur := s.cur.map (fun c => { c with synced := true }), swap := none }
+
+/-- the new component of a pending update has synced, but `pendingSwap.HasSynced` was not called yet (the
+    swap is still in `pendingSwaps`): `pendingSwap.active` hands out the NEW component -/
+def Slot.ran (s : Slot) : Slot :=
+  { cur := s.cur.map (fun c => { c with synced := true }),
+    swap := s.swap.map (fun on => (on.1, { on.2 with synced := true })) }
 
 /-- `clusterDeleted`; `cleanup` = the `fix:` commit that also drops a pending swap of the cluster -/
 def Slot.deleted (cleanup : Bool) (s : Slot) : Slot :=
